@@ -25,7 +25,7 @@ EXTENDS Integers, Sequences, FiniteSets
 CONSTANTS Kinds,       \* subset of {"reader","writer","enc","dec"}
           BlockSizes,  \* e.g. {8,16}
           DataLens,    \* lengths of the original (unpadded) data
-          Bads,        \* subset of {"none","zero","big","fill","nopad","empty"}
+          Bads,        \* subset of {"none","zero","big","fill","fill2","nopad","empty"}
           MaxReq       \* largest buffer / write size the environment uses
 
 SrcByte(i) == 128 + ((i * 7) % 113)          \* data bytes are >= 0x80: never a pad byte
@@ -42,6 +42,10 @@ StreamByte(i, n, b, bad) ==
     [] bad = "big"   -> IF i <= n THEN SrcByte(i) ELSE IF i = L THEN b + 1 ELSE p
     [] bad = "fill"  -> \* last byte says p, but the first pad byte is wrong (needs p >= 2)
                         IF i <= n THEN SrcByte(i) ELSE IF i = n + 1 THEN (IF p = 1 THEN 2 ELSE p - 1) ELSE p
+    [] bad = "fill2" -> \* the first TWO pad bytes are wrong and equal (85): faults that cancel in an XOR accumulator (needs p >= 3)
+                        IF i <= n THEN SrcByte(i)
+                        ELSE IF p >= 3 THEN (IF i <= n + 2 THEN 85 ELSE p)
+                        ELSE IF i = n + 1 THEN (IF p = 1 THEN 2 ELSE p - 1) ELSE p
     [] bad = "nopad" -> SrcByte(i)
     [] OTHER         -> 0
 \* "fill" with p = 1 degenerates into a single byte 2 preceded by data (>=0x80): still invalid.
